@@ -100,6 +100,7 @@ func vh_SAE() {
 	vCover("sent")
 	post := vSnapshotNode(n)
 	f := r.followers[target]
+	vCheckInv(n, true, true)
 	vAssert(post.term >= mid.term, "C08.termMono")
 	vAssert(vAnd(post.durTerm == post.term, post.durVote == post.votedFor), "C02|C08.persisted(N3)")
 	vAssert(vImplies(vAnd(post.term == mid.term, mid.votedFor != ""), post.votedFor == mid.votedFor), "C02|C08.vote-stable(G2)")
